@@ -628,6 +628,14 @@ datetime_types = (_dt.datetime, _dt.date)
 
 
 def run_case(case):
+    if 'ref_to_bad' in case:
+        global BAD_SNIPPETS
+        keep = BAD_SNIPPETS
+        try:
+            BAD_SNIPPETS = [case['ref_to_bad']]
+            return [f for f in run_ref_to_bad(None)]
+        finally:
+            BAD_SNIPPETS = keep
     texts = case['texts']
     if len(texts) == 1:
         items = [{'t': texts[0], 'k': case.get('kind', 'mut')}]
@@ -638,6 +646,8 @@ def run_case(case):
 
 
 def shrink_candidates(case):
+    if 'ref_to_bad' in case:
+        return
     texts = case['texts']
     if len(texts) > 1:
         for i in range(len(texts)):
@@ -959,6 +969,65 @@ def soup_items(rnd, n=24):
     return items
 
 
+BAD_SNIPPETS = ['1%2', '1 2', '1+', '+', '1+*2', '(1', '1)', '"a""b"', 'SUM(1,2', 'SUM(1,,2)', 'IF(1,2,3,4)', 'ROUND(1)', 'A1:B', 'A1 B1', '1=', '=1', 'SUM()',
+                'LEFT("a",1,2)', 'TRUE ()', '5%5%', '1..2', 'A1:B2:C3', 'SUM(1 2)', '(1)(2)', '1<>', '<>1', '"a"&', 'foo(1)', 'x', '#REF!', '1e', 'A', '$',
+                'SUM(A1:A3', 'VLOOKUP(1,A1,1)', 'MATCH()', 'TODAY(1)', 'DATE(1,2)', 'IFERROR(1)', 'IFS()']
+WRAPPERS = ['{x}', '({x})', '-{x}', '1+{x}', '{x}+1', '"a"&{x}', '{x}=1', 'IFERROR({x},7)', 'IFERROR(7,{x})', 'IF(1,{x},2)', 'IF({x},1,2)', 'IF(0,1,{x})', 'IFS(1,{x})',
+            'SUM(1,{x})', 'SUM({x},1)', 'MAX({x})', 'ROUND({x},1)', 'ROUND(1,{x})', 'LEFT({x},1)', 'CONCATENATE("a",{x})', 'AND({x})', 'COUNT({x})', 'COUNTIFS(A1:A3,{x})',
+            'SUMIF(A1:A3,{x})', 'VLOOKUP({x},A1:B3,2)', 'INDEX(A1:B3,{x},1)', 'DATE(2020,{x},1)', 'VALUE({x})', 'TEXT({x},"0")', 'IFERROR(IFERROR({x},1),2)', 'IF(1,IF(1,{x}))']
+
+
+def wrapped_items(part, parts):
+    """every snippet that is outside the grammar inside every expression position: the whole text must be rejected"""
+    items = []
+    n = 0
+    for w in WRAPPERS:
+        for b in BAD_SNIPPETS:
+            n += 1
+            if n % parts == part:
+                items.append({'t': '=' + w.replace('{x}', b), 'k': 'wrapped'})
+    return items
+
+
+def run_ref_to_bad(rec):
+    """a malformed formula in a cell that other formulas refer to - directly, through areas, inside IFERROR / IF / SUM: whichever cell
+    the translation starts from, it must end in the parser exception (whole file and every entry that reaches the cell)"""
+    fails = []
+    users = ['=D9+1', '=IFERROR(D9,7)', '=IFERROR(D9+1,7)', '=IF(1,D9,2)', '=IF(0,2,D9)', '=SUM(D8:D10)', '=SUM(D:D)', '=IFERROR(SUM(D8:D10),0)', '=INDEX(D8:D10,2)',
+             '=VLOOKUP(1,A1:D9,4)', '=COUNTIFS(D8:D10,1)', '=IFERROR(IF(D9>1,1,2),3)', '=MAX(1,D9)', '=D9', '=-D9', '="a"&D9', '=IFERROR(7,D9)', '=IFS(1,D9)']
+    for bad in BAD_SNIPPETS:
+        if rec is not None and rec.out_of_time():
+            break
+        cells = dict(DATA['S'])
+        cells['D9'] = '=' + bad
+        if verdict('=' + bad)[0] != 'invalid':
+            continue
+        for i, u in enumerate(users):
+            cells[f'F{i + 1}'] = u
+        path = wbk.write_xlsx({'sheets': [{'title': 'S', 'cells': cells}]})
+        try:
+            for ent in [None] + [('S', 'F', str(i + 1)) for i in range(len(users))]:
+                o = wbk.outcome(lambda: wbk.translate_path(path, entry=ent))
+                case = {'ref_to_bad': bad, 'user': None if ent is None else users[int(ent[2]) - 1]}
+                if rec is not None:
+                    rec.case(case, ent is not None, ['kind:ref-to-bad', 'verdict:invalid', 'invalid:' + ('accepted' if o[0] == 'value' else 'rejected')],
+                             sample={'bad cell': '=' + bad, 'entry formula': case['user']})
+                if o[0] == 'timeout':
+                    continue
+                if not (o[0] == 'lib' and o[1] == 'E2PyclParserException'):
+                    fails.append({'case': case, 'expected': 'E2PyclParserException', 'actual': 'accepted' if o[0] == 'value' else wbk.show_outcome(o),
+                                  'relation': 'outside-the-grammar-is-rejected', 'bucket': 'ref-to-bad:' + ('accepted' if o[0] == 'value' else o[1]) + ':' + (
+                                      'whole' if ent is None else users[int(ent[2]) - 1].split('(')[0].lstrip('=')[:10]), 'extra': None})
+                    break
+        finally:
+            try:
+                import os
+                os.unlink(path)
+            except OSError:
+                pass
+    return fails
+
+
 NSHARD = 16
 
 
@@ -967,6 +1036,8 @@ def plan(tier):
     specs = [{'kind': 'families', 'shard': i, 'examples': n} for i in range(NSHARD)]
     specs += [{'kind': 'arity', 'shard': 100 + i, 'per_n': 10 if tier == 'quick' else 60} for i in range(8)]
     specs += [{'kind': 'soup', 'shard': 200 + i, 'rounds': 25 if tier == 'quick' else 400} for i in range(4)]
+    specs += [{'kind': 'wrapped', 'shard': 300 + i, 'part': i, 'parts': 6} for i in range(6)]
+    specs += [{'kind': 'ref-to-bad', 'shard': 400}]
     return specs
 
 
@@ -979,6 +1050,16 @@ def run_shard(spec, rec):
             for f in run_texts(family(ast, rnd), rec):
                 rec.fail(**f)
         hyp_run(st.tuples(seed_strategy(), st.randoms(use_true_random=False)), body, spec['examples'], (ID, spec['shard']), rec)
+    elif spec['kind'] == 'wrapped':
+        items = wrapped_items(spec['part'], spec['parts'])
+        for i in range(0, len(items), 40):
+            if rec.out_of_time():
+                break
+            for f in run_texts(items[i:i + 40], rec):
+                rec.fail(**f)
+    elif spec['kind'] == 'ref-to-bad':
+        for f in run_ref_to_bad(rec):
+            rec.fail(**f)
     elif spec['kind'] == 'arity':
         rnd = random.Random(env.derive_seed(ID, 'arity', spec['shard']))
         fns = sorted(Recogniser.SHAPES)[spec['shard'] - 100::8]
